@@ -246,16 +246,21 @@ impl ServerInner {
             } => {
                 self.stopping = true;
 
-                // Signal accept thread to stop.
-                // Signal is non-blocking; we wait for thread to stop later.
-                self.waker_queue.wake(WakerInterest::Stop);
-
                 // send stop signal to workers
+                //
+                // This must happen before the accept thread is told to stop: when the accept thread
+                // exits it drops the connection senders, and a worker that saw its connection
+                // channel close before it received the stop command would just exit, without
+                // waiting for its connections and without acknowledging the (graceful) stop.
                 let workers_stop = self
                     .worker_handles
                     .iter()
                     .map(|worker| worker.stop(graceful))
                     .collect::<Vec<_>>();
+
+                // Signal accept thread to stop.
+                // Signal is non-blocking; we wait for thread to stop later.
+                self.waker_queue.wake(WakerInterest::Stop);
 
                 if graceful {
                     // wait for all workers to shut down
